@@ -221,7 +221,10 @@ def c08_schema_updates_before_modify(run, w, rule_id="C08-R1"):
   (schema) and is then written to the column metadata: nothing may be added to it in between,
   or the metadata gets a type / isFormula the schema never saw."""
   run.rule(rule_id, "")
-  fn = w.fn("useractions.UserActions._updateTableRecords")
+  tfi = w.override_methods().get(("BulkUpdateRecord", "_grist_Tables"))
+  if tfi is None:
+    raise AnalysisError("no @override_action('BulkUpdateRecord', '_grist_Tables') method")
+  fn = w.fn_of(tfi)
   cfg = fn.cfg
   # the metadata write of the collected column updates
   from . import _h_B as H
